@@ -31,9 +31,11 @@ type Machine struct {
 	Indexes []*IndexState
 	ixSeq   int
 
-	everDeleted map[uint32][]bool // offsets deleted at some point -> columns that held a value when deleted
+	everDeleted map[uint32][]bool
+	prevDeleted map[uint32][]bool // everDeleted as of the start of the current action // offsets deleted at some point -> columns that held a value when deleted
 	actions     int
 	bigPrefills int
+	prefillSeq  int
 	lastRes     []StepResult
 	lastPrefillBase    int
 	lastPrefillOffsets []uint32
@@ -259,7 +261,8 @@ func (mc *Machine) ActPrefill(t *rapid.T, n int, cols []int, seed uint64) {
 	mc.logf("prefill n=%d cols=%v seed=%#x", n, cols, seed)
 	offsets := make([]uint32, 0, n)
 	keyed := mc.Sch.Key >= 0
-	base := len(mc.M.Rows) + len(mc.everDeleted)
+	mc.prefillSeq++
+	base := mc.prefillSeq
 	mc.lastPrefillBase = base
 	err := mc.C.Query(func(txn *column.Txn) error {
 		for i := 0; i < n; i++ {
@@ -567,5 +570,14 @@ func (mc *Machine) CheckKeys(t *rapid.T, extra ...string) {
 		if !rowKeyOK || rowKey != k {
 			mc.fail(t, "QueryKey(%q) reached row %d whose Key() is %q,%v", k, at, rowKey, rowKeyOK)
 		}
+	}
+}
+
+// snapshotDeleted freezes the set of previously deleted offsets before an action
+// (the action itself adds to everDeleted).
+func (mc *Machine) snapshotDeleted() {
+	mc.prevDeleted = make(map[uint32][]bool, len(mc.everDeleted))
+	for k, v := range mc.everDeleted {
+		mc.prevDeleted[k] = v
 	}
 }
